@@ -73,7 +73,9 @@ func checkC13(p *Program, r *Report) {
 		"conversion anywhere in the query / build functions, so two strategies cannot disagree on a low-32-bit collision. C13.dispatch: MatchAny " +
 		"forwards its own (key, data) unchanged to both strategies and returns their answer. C13.consume: in each query loop every decoded delta is added to the " +
 		"running value and every decoded element is compared or indexed before the next read. C13.reader: the delta reader returns quotient·2^P + remainder with the " +
-		"filter's own P. Not decided: the Golomb–Rice codec round trip, sortedness."
+		"filter's own P. C13.every: every hashing loop ranges over the whole item list and hashes every element. C13.fresh: the index a query fills is allocated by that call. " +
+		"C13.writer: the builder writes each delta as ⌊delta/2^P⌋ one-bits (a loop writing one bit per decrement), a zero bit, then delta's low P bits — the code the reader decodes; " +
+		"another encoder is reported as undecided. Not decided: the bit-stream library, sortedness."
 	r.Trusted = []string{"aead/siphash.Sum64 is a function of (item, key)", "kkdai/bstream bit reader"}
 	pkg := p.Pkg("gcs")
 	if pkg == nil {
@@ -611,6 +613,7 @@ func checkC13(p *Program, r *Report) {
 	}
 	r.Floor("C13.consume", 6)
 	r.Floor("C13.dispatch", 2)
+	c13extra(p, r, scope, inScope)
 
 	// ---- C13.pipeline (cont.): the modulus used for reduction is the one the filter keeps
 	if ref != nil {
